@@ -615,17 +615,19 @@ def check_helpers(ctx, send):
         out8 = ctx.driver("C24", reqs8)
         for (t, op), m8, s8 in zip(keys8, out8[0::2], out8[1::2]):
             m8, s8 = m8[3:], s8[3:]
-            code = compile("\n".join(binop_lines(t, op)), "<binop8>", "exec")
+            # the emitted statements, wrapped once into a function (same text, executed by CPython)
+            env = {"rt": rt}
+            exec("def f(a, b):\n" + "".join("    " + l + "\n" for l in binop_lines(t, op)) + "    return d\n", env)
+            fn = env["f"]
             lo, hi = (-128, 127) if t.signed else (0, 255)
             k = 0
             bad_model = bad_spec = None
             for a in range(lo, hi + 1):
                 for b in range(lo, hi + 1):
-                    env = {"rt": rt, "a": a, "b": b}
                     try:
-                        exec(code, env)
-                        r = "%02x" % (env["d"] % 256)
-                        if not (lo <= env["d"] <= hi):
+                        d = fn(a, b)
+                        r = "%02x" % (d % 256)
+                        if not (lo <= d <= hi):
                             r = "RR"
                     except Exception:  # noqa
                         r = "EE"
@@ -653,7 +655,7 @@ def check(ctx):
         items.append((corp[idx][0].module.name, (lambda idx=idx: corpus()[idx][0]),
                       (lambda g, idx=idx: [(next(x for x in g.entries if x.name == e.name), a) for e, a in corpus()[idx][1]])))
     # 2. generated modules
-    nmods = 60 if ctx.thorough else 4
+    nmods = 40 if ctx.thorough else 4
     nargs = 4 if ctx.thorough else 3
     base = ctx.rng.randrange(1 << 30)
     for k in range(nmods):
